@@ -12,6 +12,8 @@
     the file id is fresh in the store (no chunk, file or marker document carries it).
 -/
 import Lungo.Proofs.GridFSUpload
+import Lungo.Proofs.GridFSLifecycle
+import Lungo.Proofs.GridFSDownload
 import Lungo.Spec.Reader
 namespace Lungo.C18
 open Lungo.GridFS Lungo.Spec
@@ -58,5 +60,98 @@ theorem upload_chunks (st : Store) (id c B : Nat) (hc : 0 < c) (hcB : c ≤ B)
     have hmem : (content.drop (i * c)).take c ∈ chunksOf c content :=
       List.mem_of_getElem? (getElem?_chunksOf c hc content i (by rw [hlen]; exact hi))
     exact chunksOf_ne_nil_mem c hc content.length content (Nat.le_refl _) _ hmem
+
+/-- **upload_partition_independent.**  The stored documents do not depend on how the content was
+    split into writes. -/
+theorem upload_partition_independent (st : Store) (id c B : Nat) (hc : 0 < c) (hcB : c ≤ B)
+    (hC : ∀ d ∈ st.chunks, d.file ≠ id) (hF : ∀ f ∈ st.files, f.id ≠ id) (hM : ∀ m ∈ st.markers, m.file ≠ id)
+    (hfresh : ∀ m ∈ st.markers, m.id < st.nextId)
+    (ws ws' : List Bytes) (h : ws.flatten = ws'.flatten) :
+    (uploadAll st false id c B ws).2 = (uploadAll st false id c B ws').2 ∧
+    (uploadAll st false id c B ws).1.chunks = (uploadAll st false id c B ws').1.chunks ∧
+    (uploadAll st false id c B ws).1.files = (uploadAll st false id c B ws').1.files ∧
+    (uploadAll st false id c B ws).1.markers = (uploadAll st false id c B ws').1.markers := by
+  obtain ⟨a1, a2, a3, a4⟩ := uploadAll_untracked st id c B hc hcB hC hF hM hfresh ws
+  obtain ⟨b1, b2, b3, b4⟩ := uploadAll_untracked st id c B hc hcB hC hF hM hfresh ws'
+  rw [a1, a2, a3, a4, b1, b2, b3, b4, h]
+  exact ⟨rfl, rfl, rfl, rfl⟩
+
+/-- **download_simulates.**  Over a store that holds the file record ⟨id, L, c⟩ and the spec chunking of
+    `content` (which is what `upload_chunks` establishes), OpenDownloadStream succeeds and every script
+    of Read / Seek / Skip operations (whence ∈ {0,1,2}) yields, step by step, the same bytes, the same
+    returned count or position, the same position afterwards and the corresponding error (none, io.EOF,
+    negative position) as the same script on the in-memory reader of `content`.  The relation carried
+    through the induction is `Sim` (Proofs/GridFSDownload.lean). -/
+theorem download_simulates (st : Store) (id c : Nat) (content : Bytes) (hc : 0 < c)
+    (hfile : st.findFile id = some ⟨id, content.length, c⟩)
+    (hchunks : st.chunksOfFile id = mkDocs id 0 (chunksOf c content))
+    (script : List ROp) (hvalid : ∀ op ∈ script, op.valid) :
+    ∃ ds, DownloadStream.open st id = .ok ds ∧
+      Forall2 OutMatch (ds.run st script) (Reader.run ⟨content, 0⟩ script) := by
+  have wf : WF st id c content := ⟨hc, hfile, hchunks⟩
+  obtain ⟨ds, h1, h2⟩ := sim_open wf
+  exact ⟨ds, h1, sim_run wf script ds _ h2 hvalid⟩
+
+/-- end-to-end: upload any partition of `content`, then run any script on the download stream -/
+theorem upload_then_download (st : Store) (id c B : Nat) (hc : 0 < c) (hcB : c ≤ B)
+    (hC : ∀ d ∈ st.chunks, d.file ≠ id) (hF : ∀ f ∈ st.files, f.id ≠ id) (hM : ∀ m ∈ st.markers, m.file ≠ id)
+    (hfresh : ∀ m ∈ st.markers, m.id < st.nextId)
+    (content : Bytes) (ws : List Bytes) (hws : ws.flatten = content)
+    (script : List ROp) (hvalid : ∀ op ∈ script, op.valid) :
+    ∃ ds, DownloadStream.open (uploadAll st false id c B ws).1 id = .ok ds ∧
+      Forall2 OutMatch (ds.run (uploadAll st false id c B ws).1 script) (Reader.run ⟨content, 0⟩ script) := by
+  obtain ⟨_, h2, h3, _⟩ := uploadAll_untracked st id c B hc hcB hC hF hM hfresh ws
+  rw [hws] at h2 h3
+  apply download_simulates _ id c content hc _ (chunksOfFile_eq _ st.chunks id _ h2 hC) script hvalid
+  unfold Store.findFile
+  rw [h3, List.find?_append]
+  have : st.files.find? (fun f => f.id == id) = none := by
+    rw [List.find?_eq_none]; intro f hf; simp [hF f hf]
+  rw [this]; simp
+
+/-- **abort_leaves_nothing.**  Open an upload (tracked or not) on a store without documents of the file,
+    write anything, Abort: the chunk, file and marker collections are exactly what they were. -/
+theorem abort_leaves_nothing (st : Store) (tracked : Bool) (id c B : Nat) (hc : 0 < c) (hcB : c ≤ B)
+    (hC : ∀ d ∈ st.chunks, d.file ≠ id) (hM : ∀ m ∈ st.markers, m.file ≠ id)
+    (hfresh : ∀ m ∈ st.markers, m.id < st.nextId) (ws : List Bytes) :
+    (writeAll st (UploadStream.new tracked id c B) ws).2.2 = none ∧
+    (((writeAll st (UploadStream.new tracked id c B) ws).2.1).abort (writeAll st (UploadStream.new tracked id c B) ws).1).2.2 = none ∧
+    (((writeAll st (UploadStream.new tracked id c B) ws).2.1).abort (writeAll st (UploadStream.new tracked id c B) ws).1).1.chunks = st.chunks ∧
+    (((writeAll st (UploadStream.new tracked id c B) ws).2.1).abort (writeAll st (UploadStream.new tracked id c B) ws).1).1.files = st.files ∧
+    (((writeAll st (UploadStream.new tracked id c B) ws).2.1).abort (writeAll st (UploadStream.new tracked id c B) ws).1).1.markers = st.markers := by
+  have env : Env st.chunks st.markers id c B := ⟨hc, hcB, hC, hM⟩
+  have inv0 : UpInv st.chunks st.files st.markers id c B tracked st (UploadStream.new tracked id c B) [] [] :=
+    UpInv.init st rfl rfl rfl hfresh
+  obtain ⟨D, _, w1, w2, _⟩ := writeAll_ok env ws st _ [] [] inv0 (by intro d hd; cases hd)
+    (by show (0 : Nat) < B; omega)
+  obtain ⟨a1, a2, a3, a4⟩ := abort_ok env w2
+  exact ⟨w1, a1, a2, a3, a4⟩
+
+/-- **delete_leaves_nothing.**  After a completed (untracked) upload, Delete removes the file record and
+    every chunk of the file and nothing else. -/
+theorem delete_leaves_nothing (st : Store) (id c B : Nat) (hc : 0 < c) (hcB : c ≤ B)
+    (hC : ∀ d ∈ st.chunks, d.file ≠ id) (hF : ∀ f ∈ st.files, f.id ≠ id) (hM : ∀ m ∈ st.markers, m.file ≠ id)
+    (hfresh : ∀ m ∈ st.markers, m.id < st.nextId) (ws : List Bytes) :
+    (delete (uploadAll st false id c B ws).1 false id).2 = none ∧
+    (delete (uploadAll st false id c B ws).1 false id).1.chunks = st.chunks ∧
+    (delete (uploadAll st false id c B ws).1 false id).1.files = st.files ∧
+    (delete (uploadAll st false id c B ws).1 false id).1.markers = st.markers := by
+  obtain ⟨_, h2, h3, h4⟩ := uploadAll_untracked st id c B hc hcB hC hF hM hfresh ws
+  have hfind : ((uploadAll st false id c B ws).1.findFile id).isSome = true := by
+    unfold Store.findFile
+    rw [h3, List.find?_append]
+    have : st.files.find? (fun f => f.id == id) = none := by
+      rw [List.find?_eq_none]; intro f hf; simp [hF f hf]
+    rw [this]; simp
+  unfold delete
+  simp only [Bool.false_eq_true, if_false, hfind, if_true]
+  refine ⟨trivial, ?_, ?_, h4⟩
+  · simp only [Store.deleteChunks, Store.deleteFile, h2]
+    exact filter_ne_append_mkDocs st.chunks id _ 0 hC
+  · simp only [Store.deleteChunks, Store.deleteFile, h3]
+    rw [List.filter_append]
+    have : st.files.filter (fun f => f.id != id) = st.files := by
+      rw [List.filter_eq_self]; intro f hf; simp [hF f hf]
+    rw [this]; simp
 
 end Lungo.C18
